@@ -298,6 +298,91 @@ impl Phase for DepthStress {
     }
 }
 
+/// Display + Debug of errors carrying hostile values (public error constructors and errors produced by evaluation)
+struct ErrorDisplay {
+    values: Vec<RV>,
+}
+
+fn display_values() -> Vec<RV> {
+    let mut v = gen::full_pool();
+    // long non-ASCII strings in every byte alignment (message truncation / padding code likes to slice bytes)
+    for pad in 0..4 {
+        for n in [20usize, 26, 27, 39, 40, 41, 64, 100] {
+            let s = format!("{}{}", "a".repeat(pad), "ä".repeat(n));
+            v.push(RV::Str(s.clone()));
+            v.push(RV::Tuple(vec![RV::Str(s), RV::Int(1)]));
+        }
+        v.push(RV::Str(format!("{}{}", "x".repeat(pad), "😀".repeat(30))));
+        v.push(RV::Str(format!("{}{}", "x".repeat(pad), "日本語".repeat(20))));
+    }
+    v.push(RV::Tuple((0..40).map(|i| RV::Tuple(vec![RV::Int(i), RV::Str("é".repeat(i as usize))])).collect()));
+    v
+}
+
+impl Phase for ErrorDisplay {
+    fn name(&self) -> String {
+        "Display/Debug of errors and values carrying hostile payloads".into()
+    }
+    fn len(&self) -> u64 {
+        self.values.len() as u64
+    }
+    fn exhaustive(&self) -> bool {
+        true
+    }
+    fn run(&mut self, idx: u64, _r: &mut Rng, out: &mut Out) {
+        use evalexpr::{EvalexprError as E, ValueType};
+        let rv = self.values[idx as usize].clone();
+        out.begin(|| format!("errors carrying {}", crate::fw::clip(&rv.show(), 200)));
+        out.nontrivial(&rv.show());
+        let res = guard(|| {
+            let v = rv.to_value();
+            let mut n = format!("{}", v).len() + format!("{:?}", v).len();
+            let errs: Vec<E> = vec![
+                E::expected_string(v.clone()),
+                E::expected_int(v.clone()),
+                E::expected_float(v.clone()),
+                E::expected_number(v.clone()),
+                E::expected_number_or_string(v.clone()),
+                E::expected_boolean(v.clone()),
+                E::expected_tuple(v.clone()),
+                E::expected_fixed_len_tuple(2, v.clone()),
+                E::expected_ranged_len_tuple(1..=3, v.clone()),
+                E::expected_empty(v.clone()),
+                E::type_error(v.clone(), vec![ValueType::Int, ValueType::String]),
+                E::wrong_operator_argument_amount(1, 2),
+                E::wrong_function_argument_amount(1, 2),
+                E::wrong_function_argument_amount_range(1, 2..=3),
+                E::VariableIdentifierNotFound(format!("{}", v)),
+                E::FunctionIdentifierNotFound(format!("{}", v)),
+                E::CustomMessage(format!("{}", v)),
+                E::IllegalEscapeSequence(format!("{}", v)),
+                E::invalid_regex(format!("{}", v), format!("{:?}", v)),
+            ];
+            for e in &errs {
+                n += format!("{}", e).len() + format!("{:?}", e).len();
+                let _ = e.clone() == *e;
+            }
+            // errors produced by evaluation, carrying the value
+            let mut c = Ctx::new();
+            let _ = c.set_value("x".into(), v.clone());
+            let _ = c.set_value("i".into(), evalexpr::Value::Int(1));
+            for src in ["-x", "!x", "x + 1", "1 - x", "x && true", "x < 2", "len(x)", "math::sqrt(x)", "min(1, x)", "x = 1", "i = x", "i += x", "str::substring(x, 1)", "if(x, 1, 2)", "contains((1, 2), x)", "bitand(x, 1)", "(x, x) == x", "x(1)", "typeof(x) + 1"] {
+                let r = evalexpr::eval_with_context_mut(src, &mut c.clone());
+                n += match &r {
+                    Ok(v) => format!("{}{:?}", v, v).len(),
+                    Err(e) => format!("{}{:?}", e, e).len(),
+                };
+            }
+            n
+        });
+        out.evals(60);
+        if let Err(p) = res {
+            out.violation("panic", format!("Display/Debug of errors carrying {}", rv.show()), "returns".into(), api::panic_text(&p));
+        }
+        out.sample(|| format!("19 constructed + 19 evaluated errors around {} formatted", crate::fw::clip(&rv.show(), 80)));
+    }
+}
+
 /// contexts built through the API in every way, then used
 struct ContextWays {
     n: u64,
@@ -379,6 +464,9 @@ pub fn phases(cfg: &Cfg) -> Vec<Box<dyn Phase>> {
     v.push(Box::new(DepthStress {
         patterns: nest_patterns(),
         ctxs: probe_contexts(),
+    }));
+    v.push(Box::new(ErrorDisplay {
+        values: display_values(),
     }));
     v.push(Box::new(PanicOnly {
         inner: c10.remove(0),
